@@ -153,10 +153,15 @@ def run_impl(M, which, existing, reqs):
                             if r[0] != "skip" and o.resource_amount in by_serial else [0])
             return outs, [c.index for c in sec.cuwp_slots]
     elif which == 3:
-        ex = [M["RichWav"](_path_in_chk=M["RichString"](f"e{i}.wav"), _index=i) for i in existing]
+        # a sound table may list ONE path in two slots: slot i (i = 3 mod 7) repeats the path of slot i - 1 when that is occupied
+        exs = set(existing)
+
+        def path_of(i):
+            return f"e{i - 1}.wav" if (i % 7 == 3 and (i - 1) in exs) else f"e{i}.wav"
+        ex = [M["RichWav"](_path_in_chk=M["RichString"](path_of(i)), _index=i) for i in existing]
         paths = []
         for r in reqs:
-            paths.append(f"e{r[1]}.wav" if r[0] == "skip" else f"n{nxt()}.wav")
+            paths.append(path_of(r[1]) if r[0] == "skip" else f"n{nxt()}.wav")
         ed = M["RichWavEditor"]()
 
         def f():
